@@ -182,6 +182,9 @@ def run(tier: str) -> int:
     # emptied by start_page, path restored after every call, in longer mixed sessions
     import c16s
     common.with_engine(o, "session", lambda: c16s.extend(o, tier))
+    # the repository's own test-suite as a trace source (harness/suitetrace.py)
+    import suitetrace
+    common.with_engine(o, "suite", lambda: suitetrace.extend(o, tier, PID))
     return o.finish()
 
 
@@ -194,6 +197,9 @@ def replay(path: str) -> int:
     if v.get("case", {}).get("engine") == "session":
         import c16s
         return c16s.replay(path)
+    if v.get("case", {}).get("engine") == "suite":
+        import suitetrace
+        return suitetrace.replay(path)
     print(json.dumps(v, indent=1)[:2500])
     return 1
 
